@@ -84,10 +84,12 @@ def new_sketch(kind, shape, shm):
     return impl.heavyhitters.HeavyHitters(shape["width"], shape["depth"], shape["max_key_len"], shared_memory=shm)
 
 
-def attach(kind, shape, name, how):
+def attach(kind, shape, name, how, owner=None):
     if how == 0:
         typ = "cms" if kind in ("linear", "log16", "log8") else kind
-        return impl.helpers.attach_shared_memory(typ, owner_args(kind, shape), name)
+        # as parallel_add does: the owner's own `args` dictionary (when the owner still exists)
+        args = dict(owner.args) if owner is not None else owner_args(kind, shape)
+        return impl.helpers.attach_shared_memory(typ, args, name)
     v = new_sketch(kind, shape, False)
     v.attach_existing_shm(name)
     return v
@@ -126,7 +128,7 @@ def replay(report, path, kind, shape, rng):
                 name = owner.shm.name
             elif nm == "attach":
                 try:
-                    views[o["v"]] = attach(kind, shape, name, rng.randrange(2))
+                    views[o["v"]] = attach(kind, shape, name, rng.randrange(2), owner)
                     got_ok = True
                 except FileNotFoundError:
                     got_ok = False
@@ -136,8 +138,22 @@ def replay(report, path, kind, shape, rng):
             elif nm == "apply":
                 h = owner if o["h"] == 0 else views[o["h"]]
                 k, v = OPS[o["o"]]
-                h.add(k, v)
-                twin.add(k, v)
+                form = (i + o["o"]) % 4
+                if form == 0 and kind != "hll":
+                    # the other ways state reaches a block: a merge into the handle and the
+                    # n_records update a parallel_add worker performs
+                    tmp = new_sketch(kind, shape, False)
+                    tmp.add(k, v)
+                    h.merge(tmp)
+                    twin.merge(tmp)
+                    h.n_added_records[1] += np.uint64(3)
+                    twin.n_added_records[1] += np.uint64(3)
+                elif form == 1:
+                    h.update({k: v})
+                    twin.update({k: v})
+                else:
+                    h.add(k, v)
+                    twin.add(k, v)
             elif nm == "drop_view":
                 v = views[o["v"]]
                 views[o["v"]] = None
